@@ -228,21 +228,12 @@ Proof.
   intros HI. destruct ev; cbn [step].
   - (* EvHtlc *)
     destruct (entry_ (pl s)) eqn:He.
-    + destruct (find_select 0 (lcs (pl s))) as [[[i d] li]|] eqn:Hf.
-      * destruct (find_select_spec _ _ _ _ _ Hf) as (x & Hx & Hp & Hli & _). rewrite Nat.sub_0_r in Hx.
-        match goal with |- InvU (fst (let '(s2, o2) := apply_adv ?s1 ?i ?a in _)) =>
-          assert (HA : InvU (fst (apply_adv s1 i a))) end.
-        { apply (apply_adv_InvU _ i _ x).
-          - unfold InvU in *. cbn. rewrite He in HI. exact HI.
-          - exact Hx.
-          - rewrite Hp. exact (select_poll_ok _ _ _ _ _ _ _ _ _). }
-        match type of HA with InvU (fst ?t) => destruct t as [s2 o2] end. exact HA.
-      * unfold InvU in *. cbn. rewrite He in HI. exact HI.
-    + unfold InvU in HI. rewrite He in HI.
-      assert (Hfs : find_select 0 (lcs (pl s) ++ [{| l_pc := PFetch (length (calls s)); l_info := {| li_blob := blob h; li_deliver := deliver h; li_inv_amount := inv_amount h |} |}]) = None).
-      { clear -HI. generalize 0%nat. induction (lcs (pl s)) as [|z r IH]; intros n; cbn in *; [reflexivity|].
-        destruct (l_pc z); cbn in HI; try lia; apply IH; lia. }
-      rewrite Hfs. unfold InvU. cbn. rewrite n_att_app. cbn. lia.
+    + unfold InvU in *. cbn. rewrite He in HI. exact HI.
+    + unfold InvU in *. rewrite He in HI. cbn. rewrite n_att_app. cbn. lia.
+  - (* EvPoll *)
+    destruct (find_select 0 (lcs (pl s))) as [[[i d] li]|] eqn:Hf; [|exact HI].
+    destruct (find_select_spec _ _ _ _ _ Hf) as (x & Hx & Hp & Hli & _). rewrite Nat.sub_0_r in Hx.
+    apply (apply_adv_InvU _ i _ x); [exact HI|exact Hx|]. rewrite Hp. exact (select_poll_ok _ _ _ _ _ _ _ _ _).
   - (* EvProcess *)
     destruct (nth_error (calls s) cid) as [cl|]; [|exact HI]. destruct (c_st cl); try exact HI.
     destruct (node_exec (nd s) (c_rpc cl) f) as [n' y]. exact HI.
